@@ -692,3 +692,13 @@ def run(ck, prog):
     _run_pre_dimension(ck, prog)
     from sa import dimension
     dimension.run_rule(ck, prog, set(DIMENSION_FILES))
+
+
+# ------------------------------------------------------------------ generic: signed counters are not cast to unsigned on their negative side
+_run_pre_negcast = run
+
+
+def run(ck, prog):
+    _run_pre_negcast(ck, prog)
+    from sa import negcast
+    negcast.run_rule(ck, prog, set(DIMENSION_FILES))
